@@ -75,22 +75,44 @@ def r4_1(ctx):
     if isinstance(cb, ast.Name):
         inner = m.functions.get(f"escape.<locals>.{cb.id}") or m.functions.get(cb.id)
     if inner is None:
-        raise AnchorVanished("escape(): the replacement callback passed to <regex>.sub was not found")
-    for n in walk_local(inner.node):
+        # a replacement *template* (string) instead of a callback:  r"\1\1\\\2"
+        tmpl = cb if isinstance(cb, ast.Constant) else (m.module_const(cb.id) if isinstance(cb, ast.Name) else None)
+        if isinstance(tmpl, ast.Constant) and isinstance(tmpl.value, str):
+            t = tmpl.value
+            parts = []
+            i = 0
+            while i < len(t):
+                if t[i] == "\\" and i + 1 < len(t):
+                    nx = t[i + 1]
+                    parts.append(("g", int(nx)) if nx.isdigit() else ("lit", "\\" if nx == "\\" else "\\" + nx))
+                    i += 2
+                else:
+                    parts.append(("lit", t[i]))
+                    i += 1
+            okt = parts == [("g", 1), ("g", 1), ("lit", "\\"), ("g", 2)] and regexast.group_count(sp_e) == 2
+            ctx.check(okt, esc_fn.fq, repr(t), esc_fn.where, "replacement template = backslashes*2 + one backslash + tag text",
+                      "escape()'s replacement is not `2 x existing backslashes + '\\' + tag`: the tokenizer's parity rule no longer sees an odd count")
+            inner = False
+        else:
+            raise AnchorVanished("escape(): the replacement callback passed to <regex>.sub was not found")
+    for n in (walk_local(inner.node) if inner else []):
         if isinstance(n, ast.Assign) and isinstance(n.targets[0], ast.Tuple) and norm(n.value).endswith(".groups()"):
             k = len(n.targets[0].elts)
             ctx.check(k == regexast.group_count(sp_e), inner.fq, norm(n), f"{m.relpath}:{n.lineno}", f"escape unpacks {k} groups", f"the escape callback unpacks {k} names but its regex has {regexast.group_count(sp_e)} groups")
-    closed = helper_closed_return(inner.node)
+    closed = helper_closed_return(inner.node) if inner else None
     ok = False
     detail = "?"
-    if closed is not None and inner.params:
+    if inner is False:
+        pass
+    elif closed is not None and inner.params:
         mp = inner.params[0]
         parts = concat_parts(closed)
         detail = norm(closed)
         g1, g2 = ("expr", f"{mp}.group(1)"), ("expr", f"{mp}.group(2)")
         ok = parts == [g1, g1, "\\", g2] and regexast.group_count(sp_e) == 2
-    ctx.check(ok, inner.fq, detail, inner.where, "replacement = backslashes*2 + one backslash + tag text",
-              "escape()'s replacement is not `2 x existing backslashes + '\\' + tag`: the tokenizer's parity rule no longer sees an odd count")
+    if inner is not False:
+        ctx.check(ok, inner.fq, detail, inner.where, "replacement = backslashes*2 + one backslash + tag text",
+                  "escape()'s replacement is not `2 x existing backslashes + '\\' + tag`: the tokenizer's parity rule no longer sees an odd count")
     # tokenizer parity - decided on the path normal form of _parse's loop body (insensitive to divmod vs // and %,
     # nested vs flat tests, temporaries, span() vs start()/end())
     from ..yieldpaths import Unsupported, emissions, paths_of, select, show
@@ -107,7 +129,20 @@ def r4_1(ctx):
     Q, R = f"len({ESC}) // 2", f"len({ESC}) % 2"
     y_bs = ("yield", f"(start, '\\\\' * ({Q}), None)")
     y_lit = ("yield", f"(start, {mv}.group(1)[len({ESC}):], None)")
-    bodies = lp[3]
+    from ..yieldpaths import resolve as _resolve
+    bodies = [_resolve(b, keep=("start", "position")) for b in lp[3]]
+    # equal texts under premises read off the regex itself: group 2 is a run of backslashes only, so any prefix of it of length
+    # k is k backslashes; group 1 is group 2 + '[' + group 3 + ']' and the whole match, so the match without its backslashes is
+    # the source text from one character before group 3 to the end of the match
+    nf = regexast.normal_form(sp_t, keep_groups=True)
+    g2_bs = regexast.chars_of(regexast.group_subpattern(sp_t, 2)) == {("lit", "\\")}
+    shape = (len(nf) == 1 and nf[0][0] == "GROUP" and nf[0][1] == 1 and len(nf[0][2]) == 4 and nf[0][2][0][:2] == ("GROUP", 2) and nf[0][2][1] == ("LITERAL", 91)
+             and nf[0][2][2][:2] == ("GROUP", 3) and nf[0][2][3] == ("LITERAL", 93))
+    alt_bs = {("yield", f"(start, {ESC}[:{Q}], None)")} if g2_bs else set()
+    alt_lit = {("yield", f"(start, markup[{mv}.start(3) - 1:{mv}.end()], None)")} if shape else set()
+
+    def canon_em(em):
+        return [y_bs if e in alt_bs else (y_lit if e in alt_lit else e) for e in em]
 
     def tag_yields(b):
         return [e for e in b if e[0] == "yield" and "Tag(" in e[1]]
@@ -115,7 +150,7 @@ def r4_1(ctx):
     sel = select(bodies, {ESC: True, Q: True})
     okq = bool(sel)
     for b in sel:
-        em = emissions(b)
+        em = canon_em(emissions(b))
         if y_bs not in em:
             okq, bad = False, b
             continue
@@ -125,7 +160,7 @@ def r4_1(ctx):
         if not adv or (later_yields and adv[0] > later_yields[0]) or adv[0] < i:
             okq, bad = False, b
     for b in select(bodies, {ESC: True, Q: False}) + select(bodies, {ESC: False, Q: False, R: False}):
-        if y_bs in emissions(b):
+        if y_bs in canon_em(emissions(b)):
             okq, bad = False, b
     ctx.check(okq, parse.fq, show(bad)[:300] if bad else "backslash pairs", parse.where, "every pair of backslashes before a tag is emitted as one literal backslash and the position advanced by two per pair",
               "the tokenizer no longer emits exactly one backslash per pair of backslashes before a tag (halving by 2) and advances past them")
@@ -133,12 +168,12 @@ def r4_1(ctx):
     sel = select(bodies, {ESC: True, R: True})
     okr = bool(sel)
     for b in sel:
-        if y_lit not in emissions(b) or tag_yields(b):
+        if y_lit not in canon_em(emissions(b)) or tag_yields(b):
             okr, bad = False, b
     sel2 = select(bodies, {ESC: True, R: False}) + select(bodies, {ESC: False, Q: False, R: False})
     okr = okr and bool(sel2)
     for b in sel2:
-        if y_lit in emissions(b) or len(tag_yields(b)) != 1:
+        if y_lit in canon_em(emissions(b)) or len(tag_yields(b)) != 1:
             okr, bad = False, b
     ctx.check(okr, parse.fq, show(bad)[:300] if bad else "odd backslash escapes the tag", parse.where, "an odd backslash makes the tag literal text (the match minus its backslashes); otherwise exactly one Tag is emitted",
               "the tokenizer no longer treats exactly an odd number of backslashes as an escaped tag emitted verbatim without its backslashes")
